@@ -51,6 +51,9 @@ FAMILIES = {
     "bnd-static": dict(n_axes=0, n_glyphs=8, composites=0.4, transforms="scale", vertical=True, post=lambda m, r: M.boundary(m, r)),
     "bnd-var1": dict(n_axes=1, layout="onaxis", n_glyphs=8, composites=0.4, post=lambda m, r: M.boundary(m, r)),
     "bnd-var2": dict(n_axes=2, layout="onaxis", n_glyphs=6, composites=0.4, nested=True, post=lambda m, r: M.boundary(m, r)),
+    "rules-var1": dict(n_axes=1, layout="onaxis", n_glyphs=11, composites=0.0, curves="lines", ext_glyph_names=M.RULE_GLYPHS, mapped=0.5, post=lambda m, r: M.add_rules(m, r)),
+    "rules-var2": dict(n_axes=2, layout="onaxis", n_glyphs=11, composites=0.0, curves="lines", ext_glyph_names=M.RULE_GLYPHS, mapped=0.5, post=lambda m, r: M.add_rules(m, r)),
+    "rules-var3": dict(n_axes=3, layout="onaxis", n_glyphs=11, composites=0.0, curves="lines", ext_glyph_names=M.RULE_GLYPHS, mapped=0.3, post=lambda m, r: M.add_rules(m, r)),
     "marks-static": dict(n_axes=0, n_glyphs=8, composites=0.0, marks=dict(n_groups=2)),
     "marks-var1": dict(n_axes=1, layout="onaxis", n_glyphs=8, composites=0.0, marks=dict(n_groups=3, n_marks=4)),
     "marks-var2": dict(n_axes=2, layout="corners", n_glyphs=8, composites=0.0, marks=dict(n_groups=2, n_ligs=2, mkmk=0.9)),
@@ -70,6 +73,7 @@ BY_PROPERTY = {
     "C12": ["c12-nested-scale", "c12-nested-rotate", "c12-nonexport-sparse", "c12-mixed-static", "c12-overflow", "var2-nested-xform"],
     "C09": ["kern-static", "kern-var1", "kern-divergent", "kern-many", "kern-intermediate", "kern-nogroups", "kern-exceptions", "kern-3x3"],
     "C10": ["marks-static", "marks-var1", "marks-var2", "marks-intermediate", "marks-multi"],
+    "C16": ["rules-var1", "rules-var2", "rules-var2", "rules-var3"],
     "C18": ["names-var1", "names-var2", "names-static", "names-var1-collide", "names-twin", "names-var1-collide"],
     "C19": ["bnd-static", "bnd-var1", "bnd-var2", "bnd-static"],
     "C14": ["var1-noorder", "var2-mixed-sparse", "var1-mixedglyphs", "kern-var1", "kern-intermediate", "kern-divergent"],
